@@ -143,12 +143,16 @@ ExpectedAt(a, b, kk) == LET c == Complete(a, b, kk) IN [i \in 1..Len(c) |-> Out(
 
 Strict == ~IsLenient(r1) /\ (r2 = None \/ ~IsLenient(r2))
 
-GenVsRec == Strict => LET ps == ParseStream(SubSeq(W, 1, k))
+GenVsRec == Strict => LET R == ParseStream(SubSeq(W, 1, k))
+                          ps == R.reqs
                           c == Complete(r1, r2, k)
                       IN /\ Len(ps) = Len(c)
                          /\ \A i \in 1..Len(c) : ps[i].x = c[i]
                          /\ (Len(c) >= 1 => ps[1].end = Len(W1))
                          /\ (Len(c) = 2 => ps[2].end = Len(W))
+                         \* a cut well-formed stream is an incomplete one (never a malformed one); a malformed line is recognised as such
+                         /\ (r1.junk = <<>> /\ (r2 = None \/ r2.junk = <<>>)) => R.st \in {"end", "closed", "inc"}
+                         /\ (k = Len(W) /\ r1.junk # <<>>) => R.st = "bad"
 PathsSafe == \A i \in 1..Len(ExpectedAt(r1, r2, k)) : ~HasDD(ExpectedAt(r1, r2, k)[i].path)
 PrefixMono == [][LET a == Complete(r1, r2, k) b == Complete(r1, r2, k') IN Len(b) <= Len(a) /\ \A i \in 1..Len(b) : b[i] = a[i]]_vars
 \* chunk sizes are a partition of the body (sanity of the families)
